@@ -198,6 +198,9 @@ def answer (cmd : String) (args : List Nat) : String :=
     if 5 ≤ ws.length ∧ ws.length ≤ 7 then
       let valid := isValid ws
       joinStrs [toString (boolNat valid), showOpt (handRankValueValidated T ws),
+        (match handRankValueValidated T ws with
+         | some v => showRank (HandRank.ofValue v)
+         | none => "panic"),
         if ws.length = 5 then showOpt (fiveCards T ws) else "-",
         if valid then showOpt (handRankValue T ws) else "-"]
     else "bad-request"
